@@ -32,9 +32,13 @@ def tasks(tier, seed):
         func("bt.core.CouponPayingSecurity.update"),
         func("bt.core.HedgeSecurity.update"),
         func("bt.core.CouponPayingHedgeSecurity.update"),
-        func("bt.core.SecurityBase.transact"),
-        func("bt.core.StrategyBase.adjust"),
+        dict(kind="custom", module="props.bounded", fn="run_script", script="c01_identity", seed=seed, n=40 if tier == "quick" else 1500, props=["C01"]),
     ]
+
+
+def post(results, tier, seed):
+    b = [r["bounded"] for r in results if r.get("bounded")]
+    return None, dict(bounded_stand_ins=b, bounded_note="random operation histories on real trees (direct API), observed at random points; never counted in obligations/discharged")
 
 
 def replay(o):
